@@ -243,7 +243,7 @@ def _field_info(model, mainf, o, parts, scope, parts_stmt):
                     init = model.resolve_method(fname, '__init__')
                     cands = [init] if init else []
                 for g in cands:
-                    ps = g.params[1:]
+                    ps = g.bound_params()
                     for i, a in enumerate(n.args):
                         if isinstance(a, ast.Name) and a.id in tag_names and i < len(ps) and \
                            ps[i] in ('tag', 'geo_tag'):
